@@ -4548,13 +4548,19 @@ internal_run_from_select (struct MHD_Daemon *daemon,
   {
     /* do not have a thread per connection, process all connections now */
     struct MHD_Connection *pos;
-    for (pos = daemon->connections_tail; NULL != pos; pos = pos->prev)
+    struct MHD_Connection *prev;
+    prev = daemon->connections_tail;
+    while (NULL != (pos = prev))
     {
       MHD_socket cs;
       bool r_ready;
       bool w_ready;
       bool has_err;
 
+      /* Get the next connection before the handlers are called: they may
+         move 'pos' to the cleanup or to the suspended list and the same
+         'prev' member links 'pos' into that list. */
+      prev = pos->prev;
       cs = pos->socket_fd;
       if (MHD_INVALID_SOCKET == cs)
         continue;
